@@ -7,6 +7,7 @@ From Coq Require Import String.
 From Coq Require Import List ZArith Bool Arith.
 From NT Require Import Sx Rose Nav NavProofs NavLaws NavSource.
 From NT Require FsRepr FsReprDecode MiscMapper MiscRepr MiscNode MiscNodeProofs.   (* part NODEMISC, imported at the end of this file *)
+From NT Require MiscMapperProofs MiscForward MiscForwardProofs.   (* part FORWARD, imported at the end of this file *)
 From NTGen Require Import Generated.
 Import ListNotations.
 
@@ -545,3 +546,36 @@ Example C10_misc_ex_reprs :
   repr_of [84]%Z [110]%Z (DStr [105; 100]%Z) (Some [107]%Z) =
     [84; 60; 107; 105; 110; 100; 61; 107; 44; 32; 110; 44; 32; 100; 97; 116; 97; 95; 105; 100; 61; 39; 105; 100; 39; 62]%Z.
 Proof. exact ex_reprs. Qed.
+
+(* ==== PART FORWARD: Node.__getattr__, the attribute forwarding of Tree(forward_attrs=True) (model theories/Forest/MiscForward.v,
+   correspondence Cases/CaseMiscForward.v, harness parts_misc.FORWARD).  [own] = the names the normal lookup finds on the node
+   (slots, properties, methods); [tree_forward] = None for a node without a tree, else the tree's flag. ==== *)
+Import MiscForward MiscForwardProofs.
+
+(* a native name is never forwarded, whatever the data object has under that name *)
+Theorem C10_forward_native_names_shadow : forall own tf attrs name, In name own -> node_getattr own tf attrs name = GOwn.
+Proof. exact own_names_shadow. Qed.
+Print Assumptions C10_forward_native_names_shadow.
+
+(* forwarded exactly when the name is not native, the node has a tree with forward_attrs on, and the data object has the attribute *)
+Theorem C10_forward_iff : forall own tf attrs name v,
+  node_getattr own tf attrs name = GData v <-> ~ In name own /\ tf = Some true /\ d_get attrs name = Some v.
+Proof. exact forwarded_iff. Qed.
+Print Assumptions C10_forward_iff.
+
+(* with forward_attrs off (the default), and on a removed node, nothing is ever forwarded *)
+Theorem C10_forward_off : forall own tf attrs name, tf <> Some true ->
+  node_getattr own tf attrs name = GOwn \/ node_getattr own tf attrs name = GAttrErr.
+Proof. exact no_forwarding. Qed.
+Print Assumptions C10_forward_off.
+
+(* the lookup goes to the data object each time: a changed attribute is seen *)
+Theorem C10_forward_sees_updates : forall own attrs name v,
+  ~ In name own -> node_getattr own (Some true) (d_set attrs name v) name = GData v.
+Proof. exact forwarding_sees_updates. Qed.
+Print Assumptions C10_forward_sees_updates.
+
+Example C10_forward_ex :
+  map (node_getattr [[110; 97; 109; 101]%Z] (Some true) [([110; 97; 109; 101]%Z, PStr [65]%Z); ([97; 103; 101]%Z, PInt 23)])
+      [[110; 97; 109; 101]%Z; [97; 103; 101]%Z; [120]%Z] = [GOwn; GData (PInt 23); GAttrErr].
+Proof. reflexivity. Qed.
